@@ -198,7 +198,14 @@ func findFiles(cwd string, patterns []string) (_ []sourcePath, err error) {
 		}
 
 		for _, f := range fs {
-			files[f.Absolute] = f
+			// The same file may be reached under several names when
+			// a directory on the way to it is a symbolic link. It is
+			// still one file, to be processed once.
+			key := f.Absolute
+			if resolved, err := filepath.EvalSymlinks(key); err == nil {
+				key = resolved
+			}
+			files[key] = f
 		}
 	}
 
